@@ -333,13 +333,20 @@ class MessageManager(interfaces.TokenInterface, interfaces.MessageManager):
         """Retransmit CON message that has not been ACKed or RSTed."""
         key = (message.remote, message.mid)
 
-        messageerror_monitor, next_retransmission = self._active_exchanges.pop(key)
+        # The exchange stays registered while the message is being sent: if the
+        # transport reports an error right from the send call, the error
+        # dispatch needs to find (and remove) it like any other time.
+        messageerror_monitor, next_retransmission = self._active_exchanges[key]
         # this should be a no-op, but let's be sure
         next_retransmission.cancel()
 
         if retransmission_counter < message.transport_tuning.MAX_RETRANSMIT:
             self.log.info("Retransmission, Message ID: %d.", message.mid)
             self._send_via_transport(message)
+            if key not in self._active_exchanges:
+                # Sending failed synchronously, and the exchange was taken
+                # down along with everything else for that remote
+                return
             retransmission_counter += 1
             timeout *= 2
 
@@ -348,6 +355,7 @@ class MessageManager(interfaces.TokenInterface, interfaces.MessageManager):
             )
             self._active_exchanges[key] = (messageerror_monitor, next_retransmission)
         else:
+            del self._active_exchanges[key]
             self.log.info("Exchange timed out trying to transmit %s", message)
             del self._backlogs[message.remote]
             self.token_manager.dispatch_error(
